@@ -153,7 +153,10 @@ def compile_instr(eng, f, ins):
         if op in BINOPS: h = c_binop
         elif op in FBINOPS: h = c_fbinop
         elif op in CASTS: h = c_cast
-        else: raise Unsupported("no compiler for " + op)
+        else:
+            # unsupported IR is loud, but only on the paths that execute it: the path ends as 'unsupported' (never a pass)
+            def bad(eng, st, fr, work, _op=op): raise Unsupported("IR instruction '%s' is not implemented by the engine" % _op)
+            ins.run = bad; return
     ins.run = h(eng, f, ins)
 
 def c_binop(eng, f, ins):
@@ -267,6 +270,7 @@ def c_cast(eng, f, ins):
                     # x86-64 cvttsd2si: "integer indefinite"
                     r = 1 << (to.bits - 1) if to.bits in (32, 64) else 0
                     if op == 'fptoui' and to.bits == 64 and v == v and v >= 2 ** 63 and v < 2 ** 64: r = int(v)
+                    if op == 'fptoui' and to.bits == 64 and v == v and -(2 ** 63) < v < 0: r = int(v) & ((1 << 64) - 1)     # signed cvttss2si result reinterpreted
                 else:
                     r = int(v) & ((1 << to.bits) - 1)
             elif op == 'fpext': r = f_to_bits(bits_to_f(x, 32), 64) if (x & 0x7f800000) != 0x7f800000 or not (x & 0x7fffff) else ((x >> 31) << 63) | (0x7ff << 52) | ((x & 0x7fffff) << 29)
@@ -280,8 +284,22 @@ def c_cast(eng, f, ins):
             elif op == 'sext': r = z3.SignExt(to.bits - frm.bits, tobv(x, frm.bits))
             elif op == 'fpext': r = z3.fpToIEEEBV(z3.fpFPToFP(z3.RNE(), tofp(x, 32), z3.Float64()))
             elif op == 'fptrunc': r = z3.fpToIEEEBV(z3.fpFPToFP(z3.RNE(), tofp(x, 64), z3.Float32()))
-            elif op == 'fptosi': r = z3.fpToSBV(z3.RTZ(), tofp(x, frm.bits), z3.BitVecSort(to.bits))
-            elif op == 'fptoui': r = z3.fpToUBV(z3.RTZ(), tofp(x, frm.bits), z3.BitVecSort(to.bits))
+            elif op in ('fptosi', 'fptoui'):
+                # SMT-LIB leaves out-of-range / NaN conversions unspecified; the machine does not: x86-64 "integer indefinite"
+                X = tofp(x, frm.bits); S_ = fpsort(frm.bits); nb = to.bits
+                indef = z3.BitVecVal(1 << (nb - 1), nb)
+                lo = z3.FPVal(-(2.0 ** (nb - 1)), S_); hi = z3.FPVal(2.0 ** (nb - 1), S_)
+                in_s = z3.And(z3.Not(z3.fpIsNaN(X)), z3.fpGEQ(X, lo), z3.fpLT(X, hi))         # trunc(x) fits the signed type (lo itself is exact)
+                sv = z3.fpToSBV(z3.RTZ(), X, z3.BitVecSort(nb))
+                if op == 'fptosi' or nb != 64:
+                    if op == 'fptoui':
+                        hi2 = z3.FPVal(2.0 ** nb, S_)
+                        r = z3.If(z3.And(z3.Not(z3.fpIsNaN(X)), z3.fpGT(X, z3.FPVal(-1.0, S_)), z3.fpLT(X, hi2)), z3.fpToUBV(z3.RTZ(), X, z3.BitVecSort(nb)), indef)
+                    else:
+                        r = z3.If(in_s, sv, indef)
+                else:
+                    hi2 = z3.FPVal(2.0 ** 64, S_)
+                    r = z3.If(in_s, sv, z3.If(z3.And(z3.Not(z3.fpIsNaN(X)), z3.fpGEQ(X, hi), z3.fpLT(X, hi2)), z3.fpToUBV(z3.RTZ(), X, z3.BitVecSort(nb)), indef))
             elif op == 'uitofp': r = z3.fpToIEEEBV(z3.fpToFPUnsigned(z3.RNE(), tobv(x, frm.bits), fpsort(to.bits)))
             elif op == 'sitofp': r = z3.fpToIEEEBV(z3.fpToFP(z3.RNE(), tobv(x, frm.bits), fpsort(to.bits)))
             else: raise Unsupported(op)
@@ -521,6 +539,13 @@ def c_atomicrmw(eng, f, ins):
         if type(old) is not int or type(x) is not int: raise Unsupported("symbolic atomicrmw")
         new = {'add': old + x, 'sub': old - x, 'xchg': x, 'and': old & x, 'or': old | x}[bop] & mask
         st.store(p, n, new); fr.regs[dst] = old
+    return run
+
+def c_fneg(eng, f, ins):
+    a = getter(eng, ins.args[0]); dst = ins.dst; bits = ins.ty.bits; sign = 1 << (bits - 1)
+    def run(eng, st, fr, work):
+        x = a(fr)
+        fr.regs[dst] = (x ^ sign) if type(x) is int else simp(tobv(x, bits) ^ z3.BitVecVal(sign, bits))
     return run
 
 def c_fence(eng, f, ins):
